@@ -650,8 +650,17 @@ func (w *World) dests(op *Op) []int {
 	var d []int
 	// in the unsafe modes the destination is the operand the operation overwrites and returns; for a
 	// scalar-tensor first operand and a larger second operand that is the second one
-	if (op.Mode == "unsafe" || op.Mode == "same-unsafe") && w.lastRes >= 0 {
-		d = append(d, w.lastRes)
+	if op.Mode == "unsafe" || op.Mode == "same-unsafe" {
+		if w.lastRes >= 0 {
+			d = append(d, w.lastRes)
+		} else if len(op.In) > 1 && op.Form == "vv" {
+			// no result (error or panic half way): if the first operand holds a single element and the
+			// second is larger, the second is the one an unsafe operation works in
+			a, b := w.get(op.In[0]), w.get(op.In[1])
+			if a != nil && b != nil && a.Shape().TotalSize() == 1 && b.Shape().TotalSize() > 1 {
+				d = append(d, op.In[1])
+			}
+		}
 	}
 	switch op.Name {
 	case "SetAt", "T", "UT", "Transpose", "Memset", "Zero", "Reshape", "ResetMask", "HardenMask", "SoftenMask",
